@@ -7,6 +7,8 @@ import molgen
 from props import c01
 from vlib import g_list, g_Q
 
+COQ_DEPS = ['Thermo/Corr.vo']
+
 UNITS = ['J/mol', 'kJ/mol', 'L kPa/mol', 'cm3 kPa/mol', 'm3 Pa/mol', 'cm3 MPa/mol', 'm3 bar/mol', 'L bar/mol',
          'L torr/mol', 'cal/mol', 'kcal/mol', 'L atm/mol', 'cm3 atm/mol', 'eV', 'Eh', 'Ha']
 # conversion factors between the energy units that follow from their SI definitions (independent of pmutt)
